@@ -2,6 +2,7 @@
 from hypothesis import strategies as st
 from props.common import std_classes
 from props.C02 import c02_case
+from props.hist import hist_case
 
 ID = "C09"
 LEVEL = "exploration"
@@ -18,15 +19,26 @@ BUDGET = {
 }
 
 
+def _as_c08(c):
+    c["set"]["prop"] = "C08"; c["set"]["via"] = "history"; c["set"].setdefault("u", 1.0); c["set"].setdefault("P", 1); return c
+
+
 def strategy(tier):
+    # refactored factorizations (refact=YES, with and without reuse of the row order) come from the history generator
     if tier == "quick":
-        return c02_case(pmax=4)
-    return st.one_of(c02_case(nmax=60, pmax=8), c02_case(nmin=40, nmax=250, pmax=8, small=0.0))
+        return st.one_of(c02_case(pmax=4), c02_case(pmax=4), hist_case(nmax=30, maxlen=5).map(_as_c08))
+    return st.one_of(c02_case(nmax=60, pmax=8), c02_case(nmin=40, nmax=250, pmax=8, small=0.0), hist_case(nmax=60, maxlen=10).map(_as_c08))
 
 
 def nontrivial(case, v):
     f = v.get("f", {})
+    if case["set"].get("via") == "history":
+        return f.get("refacts", 0) > 0
     return f.get("info", 1) == 0 and ((case["set"].get("P", 1) >= 2 and f.get("sup_monotone", 1) == 0) or f.get("maxsup", 0) >= 2)
 
 
-classify = std_classes
+def classify(case, v):
+    if case["set"].get("via") == "history":
+        from props.hist import hist_classes
+        return ["via=history"] + hist_classes(case, v)
+    return std_classes(case, v)
